@@ -493,10 +493,12 @@ impl Harness for C04 {
             }
         };
         let k = k_of(pair.0);
+        // thorough tier: one case in ten is a larger assembly (more reads, longer reads, more shards)
+        let large = tier == Tier::Thorough && rng.chance(1, 10);
         let cfg = GenCfg {
             k,
-            max_reads: 10,
-            max_len: (2 * k + 60).min(160),
+            max_reads: if large { 24 } else { 10 },
+            max_len: if large { 400 } else { (2 * k + 60).min(160) },
             allow_short: true,
         };
         let (reads, _) = dna::gen_reads(rng, &cfg);
